@@ -2,8 +2,27 @@
 from . import groups
 
 
+def recurrence_in_nonrepeatable_group(e):
+    """diagnostic for the signature: does a max-1 segment recur whose own group is max-1 too, below a repeatable one?"""
+    nodes = e["struct"]
+    counts = {}
+    for n in e["input"]:
+        counts[n] = counts.get(n, 0) + 1
+    for i, nd in enumerate(nodes):
+        if nd[1] == "SEG" and counts.get(nd[0], 0) >= 2 and nd[3] == 1 and nd[4] != 0:
+            g = nodes[nd[4] - 1]
+            if g[3] == 1:
+                p = g[4]
+                while p != 0:
+                    if nodes[p - 1][3] != 1:
+                        return True
+                    p = nodes[p - 1][4]
+    return False
+
+
 def signature(e, clause):
-    return {"clause": clause, "v": e["v"], "sid": e["sid"], "mode": e["mode"].split(":")[0], "out_fg": e["out_fg"]}
+    return {"clause": clause, "v": e["v"], "sid": e["sid"], "mode": e["mode"].split(":")[0], "out_fg": e["out_fg"],
+            "recurrence_in_nonrepeatable_group": recurrence_in_nonrepeatable_group(e)}
 
 
 def run(ctx):
